@@ -1,0 +1,2 @@
+// Package verifhook is empty unless built with the tag "verif"; see evaluator.go and friends.
+package verifhook
